@@ -390,8 +390,10 @@ func validateRequired(v interface{}, name string) error {
 	if v == nil {
 		return ErrRequired
 	}
-	val := reflect.ValueOf(v)
-	if val.Kind() == reflect.Ptr && val.IsNil() {
+	// the value behind pointers: a nil pointer on the way means that nothing
+	// is set, and a number held by a pointer is a number
+	val := chaseValue(reflect.ValueOf(v))
+	if (val.Kind() == reflect.Ptr || val.Kind() == reflect.Interface) && val.IsNil() {
 		return ErrRequired
 	}
 	if isInt(val.Kind()) || isUint(val.Kind()) || isFloat(val.Kind()) {
